@@ -12,6 +12,8 @@ CLAIMS = {
  "C01": "Random programs of 1-8 coroutines (spawned from threads and coroutines, plain/named/custom-stack/id/spawn_local, nested children, yields, sleeps, parks, scripted panics, cancels) on the REAL runtime with 1-4 workers under seeded schedules, stalls and spurious CAS failures. Oracles: closure started exactly once, never resident on two OS threads (engine co_enter/co_leave), finished before join/wait/is_done say so, join returns exactly value / panic payload / Cancel, bounded liveness in virtual time, no crash.",
  "C02": "Program A: n rounds of coroutine::park/park_timeout with one unpark per round issued (by thread or coroutine unparkers) after the previous park returned, at a random distance - pure liveness. Program B: fresh Blocker per waiter (coroutine -> Park, thread -> ThreadPark token loop), partner unparks before/during/after/never, optional cancel, timeouts 0..10 ms incl. sub-ms and fractional: Ok => an unpark was invoked, Timeout => not before the deadline and no unpark had returned before it, Canceled only if cancelled; every park returns (hung verdict otherwise). Stalls are injected inside the register/re-check window.",
  "C05": "2-4 actors (random thread/coroutine mix) doing lock / try_lock with yields and sleeps inside the section, one coroutine optionally cancelled at a random point. Online: occupancy <= 1 inside the section, a plain counter read-modified-written across a schedule point (lost update), try_lock never succeeds while held and never fails when nobody held or requested the lock during the whole call; end: counter == completed sections, mutex free and not poisoned, every actor finished (stranded waiter = hung verdict).",
+ "C06": "mpsc (1-3 cloned senders), spsc, mpmc (1-3 senders x 1-3 receivers) with thread/coroutine endpoints; receivers mix recv / try_recv / recv_timeout / iterators and run until they see the disconnect; channel pre-rolled past a queue block (64/32/31 slots). Oracles: canary payloads + drop table (each value received exactly once, nothing foreign), per-sender order per receiver, successful sends == receives, recv_timeout never early, bounded liveness (a receiver not woken by the send/disconnect = hung verdict).",
+ "C07": "Same program family weighted to the disconnect: last sender dropped at a random point relative to each receiver's try-receive / register / park steps, 1-3 mpmc receivers in the window together, 0-n values still queued; second half: receivers quit and drop after k values while senders keep sending. Oracles: every receiver drains what it can, then gets Disconnected and returns (hung verdict otherwise); single receiver: Disconnected is final and nothing is queued behind it; send fails only once every receiver began dropping, hands the value back, never succeeds after the last receiver's drop returned; all values dropped exactly once when the channel is gone.",
  "C10": "Semphore: 2-5 actors doing wait / wait_timeout (0..3 ms incl. sub-ms) / try_wait / post from threads and coroutines with initial value 0-3, a feeder guaranteeing enough permits, optional cancel of a waiter. Online: successful waits <= initial + posts invoked; quiescence: get_value == initial + posts - successes and the permits are takeable; timeouts never early; all waits return. SyncFlag: waiters before/during/after fire, timed waiters racing the fire, monitor: never un-fired after fire returned, wait_timeout false only at/after the deadline and only if fire had not returned before it.",
  "C11": "Condvar ticket protocol (tickets / broadcast flag under one Mutex; wait, wait_while, wait_timeout; notify inside or outside the lock; cancel of a waiter): every waiter gets its ticket (a swallowed notification = hung verdict), mutex exclusively re-acquired when wait returns (occupancy), mutex free and unpoisoned at the end. Barrier(2-4) x 1-3 generations: nobody returns before the n-th arrival, exactly one leader per generation, all return. WaitGroup: wait returns only after every other clone's drop began, and returns.",
  "C12": "2-4 actors doing read / write / try_read / try_write with yields and sleeps inside, in clean state and after a writer panicked holding the guard (guards recovered from PoisonError / TryLockError::Poisoned and used), optional cancel of one coroutine at a random point (also while it holds guards). Online: writers <= 1 and writers*readers == 0, data stable under guards, no panic escapes a guard drop; end: try_write, try_read, try_write succeed after all guards are gone, not poisoned unless a writer panicked, every actor finished.",
